@@ -60,6 +60,12 @@ CLAIMED = {
         "schedule generation (property-based) against a reference clock model",
         "DESIGN.md §4 C20",
     ),
+    "C10": (
+        "Stateful property testing with injected faults on the full hub (3 pairs incl. a cw20 leg, 3 vaults, pool router with generated 1- and 2-hop routes, collector, distributor, lair): generated histories create fee states (zero, <= 1000, above) through real swaps and router flash loans, change the take rate over {inactive, 0, 1e-18, 0.1, ~1, random} with/without a DAO address, add/remove routes, disable swaps on a pair (simulation passes, execution fails), de-register or drain pairs, donate to the collector, call ForwardFees from non-distributors, and create epochs. Each NewEpoch is judged against a conservation oracle: failure => whole world snapshot unchanged; success => pending fees of registered pairs/vaults collected (sub-threshold entries kept), every non-distribution asset in the collector either untouched or fully swapped, router empty, DAO delta == floor(rate * forwarded balance) iff active and recorded in TakeRateHistory, distributor inflow == new epoch total - rolled-over remainder, collector's distribution-asset balance 0.",
+        "Protocol fees charged by the aggregation's own swaps are read from swap events (claims validated by C07). Trios are not collected by ForwardFees and are not asserted. cw-multi-test as the chain.",
+        "stateful property testing with fault injection and a conservation oracle",
+        "DESIGN.md §4 C10",
+    ),
     "C02": (
         "Generated-input search (proptest, 16 deterministic shards) over the whole documented domain [1,2^128)^3 x valid fee triples x decimals, judged against an independent exact 1024-bit reference: gross floor, fee floors, strict bound, totality inside the 128-bit domain, there-and-back with the case's fees and with zero fees, gross monotone in the offer. Exploration, not proof: millions of cases per quick run, hundreds of millions thorough, with boundary constants and extreme-ratio shapes weighted in.",
         "Trusts refmath.rs (bnum integers, self-tested at start-up) and that commands::swap / queries::query_simulation call the hooked compute_swap (cross-checked by C14). A panic is an abort.",
